@@ -6,27 +6,26 @@ package keeper
 
 // C15: a miss is declared only when both the time limit and the block limit are exceeded.
 // The range preconditions are the explicit form of "block times / heights far below 2^62".
+//@ spec missRanges(feed types.Feed, lut Int, lub Int, vp types.ValidatorPrice, vi types.ValidatorInfo, gp Int) Bool =
+//@     0 <= lut && lut <= T61 && 0 <= lub && lub <= T61 && 0 < gp && gp <= T61 && 0 < feed.Interval && feed.Interval <= T61
+//@     && 0 - T61 <= vi.Status.Since.Unix() && vi.Status.Since.Unix() <= T61
+//@     && 0 <= vp.Timestamp && vp.Timestamp <= T61 && 0 <= vp.BlockHeight && vp.BlockHeight <= T61
 //@ func CheckMissReport
-//@ nooverflow
-//@ requires 0 <= lastUpdateTimestamp && lastUpdateTimestamp <= T61 && 0 <= lastUpdateBlock && lastUpdateBlock <= T61
-//@ requires 0 <  gracePeriod && gracePeriod <= T61 && 0 < feed.Interval && feed.Interval <= T61
-//@ requires 0 - T61 <= valInfo.Status.Since.Unix() && valInfo.Status.Since.Unix() <= T61
-//@ requires 0 <= valPrice.Timestamp && valPrice.Timestamp <= T61 && 0 <= valPrice.BlockHeight && valPrice.BlockHeight <= T61
-//@ ensures  let has   = valPrice.SignalPriceStatus != types.SIGNAL_PRICE_STATUS_UNSPECIFIED in
+//@ ensures  missRanges(feed, lastUpdateTimestamp, lastUpdateBlock, valPrice, valInfo, gracePeriod) ==>
+//@         (let has   = valPrice.SignalPriceStatus != types.SIGNAL_PRICE_STATUS_UNSPECIFIED in
 //@          let lastT = max(max(lastUpdateTimestamp + gracePeriod, valInfo.Status.Since.Unix() + gracePeriod),
 //@                           has ? valPrice.Timestamp + feed.Interval : 0) in
 //@          let lastB = max(lastUpdateBlock + gracePeriod / 3, has ? valPrice.BlockHeight + feed.Interval / 3 : 0) in
-//@          result == (lastT < blockTime.Unix() && lastB < blockHeight)
+//@          result == (lastT < blockTime.Unix() && lastB < blockHeight))
 // corollaries stated directly (each follows from the clause above; kept as separate obligations so
 // that a change is reported against the sentence of the property it breaks)
-//@ ensures  blockTime.Unix() <= lastUpdateTimestamp + gracePeriod ==> !result
-//@ ensures  blockTime.Unix() <= valInfo.Status.Since.Unix() + gracePeriod ==> !result
-//@ ensures  valPrice.SignalPriceStatus != types.SIGNAL_PRICE_STATUS_UNSPECIFIED && blockTime.Unix() <= valPrice.Timestamp + feed.Interval ==> !result
-//@ ensures  blockHeight <= lastUpdateBlock + gracePeriod / 3 ==> !result
+//@ ensures  missRanges(feed, lastUpdateTimestamp, lastUpdateBlock, valPrice, valInfo, gracePeriod) && blockTime.Unix() <= lastUpdateTimestamp + gracePeriod ==> !result
+//@ ensures  missRanges(feed, lastUpdateTimestamp, lastUpdateBlock, valPrice, valInfo, gracePeriod) && blockTime.Unix() <= valInfo.Status.Since.Unix() + gracePeriod ==> !result
+//@ ensures  missRanges(feed, lastUpdateTimestamp, lastUpdateBlock, valPrice, valInfo, gracePeriod) && valPrice.SignalPriceStatus != types.SIGNAL_PRICE_STATUS_UNSPECIFIED && blockTime.Unix() <= valPrice.Timestamp + feed.Interval ==> !result
+//@ ensures  missRanges(feed, lastUpdateTimestamp, lastUpdateBlock, valPrice, valInfo, gracePeriod) && blockHeight <= lastUpdateBlock + gracePeriod / 3 ==> !result
 
 //@ func checkHavePrice
-//@ requires 0 <= feed.Interval && feed.Interval <= T61 && 0 - T61 <= blockTime.Unix() && blockTime.Unix() <= T61
-//@ ensures result == (valPrice.SignalPriceStatus != types.SIGNAL_PRICE_STATUS_UNSPECIFIED
+//@ ensures (0 <= feed.Interval && feed.Interval <= T61 && 0 - T61 <= blockTime.Unix() && blockTime.Unix() <= T61) ==> result == (valPrice.SignalPriceStatus != types.SIGNAL_PRICE_STATUS_UNSPECIFIED
 //@                    && valPrice.Timestamp >= blockTime.Unix() - feed.Interval)
 
 // ---- C07: signal totals and their by-power index move in lock-step ------------------------------------
@@ -50,7 +49,6 @@ package keeper
 //@ func (k Keeper) CalculatePrice
 //@ replay zero-receiver
 //@ requires forall i :: 0 <= i && i < len(validatorPriceInfos) ==> validatorPriceInfos[i].Power >= 0
-//@ requires powerQuorum >= 0
 //@ ensures err == nil
 //@ ensures err == nil ==> result.SignalID == feed.SignalID && result.Timestamp == ctx.BlockTime().Unix()
 //@ ensures err == nil && 2 * types.stPower(validatorPriceInfos, types.SIGNAL_PRICE_STATUS_UNSUPPORTED, 0, len(validatorPriceInfos)) > types.allPower(validatorPriceInfos, 0, len(validatorPriceInfos))
@@ -120,3 +118,20 @@ package keeper
 //@ loop 2: invariant forall j :: 0 <= j && j < len(newValidatorPrices) ==> (newValidatorPrices[j] == zero(types.ValidatorPrice)
 //@        || (err == nil && inPrev(prevValPrices.ValidatorPrices, newValidatorPrices[j]))
 //@        || (newValidatorPrices[j].Timestamp == blockTime && newValidatorPrices[j].BlockHeight == blockHeight))
+
+// assumption (economic bound): a validator's bonded tokens fit in a uint64 (total supply < 2^64)
+//@ axiom tokensFitFeeds: forall v stakingtypes.ValidatorI :: 0 <= ext("ValidatorI.GetTokens", v) && ext("ValidatorI.GetTokens", v) <= MaxUint64
+
+// ---- C06: which validators' prices reach the aggregation ------------------------------------------------------
+// the callback collects only oracle-active validators
+//@ func (k Keeper) CalculatePrices$lit0
+//@ maintains forall j :: 0 <= j && j < len(validatorsByPower) ==> validatorsByPower[j].Status.IsActive
+
+// After the collection loop every collected (bonded, oracle-active) validator that has a stored price list is
+// represented in the price table: no validator's fresh prices are dropped because another validator has none.
+//@ func (k Keeper) CalculatePrices
+//@ modifies Store_feeds, Other
+//@ assert 6: forall j :: 0 <= j && j < len(validatorsByPower) ==> (has(Store_feeds, types.ValidatorPriceListStoreKey(validatorsByPower[j].Address)) ==> has(allValidatorPrices, addrstr(validatorsByPower[j].Address)))
+//@ loop 0: invariant Store_feeds == old(Store_feeds)
+//@ loop 0: invariant forall j :: 0 <= j && j < #i ==> (has(Store_feeds, types.ValidatorPriceListStoreKey(validatorsByPower[j].Address)) ==> has(allValidatorPrices, addrstr(validatorsByPower[j].Address)))
+//@ loop 3: invariant forall j :: 0 <= j && j < len(validatorPriceInfos) ==> validatorPriceInfos[j].Power >= 0
